@@ -74,7 +74,7 @@ class RelativeJumpOpcode(OpcodeWithoutOperand):
             pc = resolver.pc
             physical_destination = resolver.get_bus().get_address(value).physical
 
-            if physical_destination is None:
+            if physical_destination is None or resolver.reloc_address.physical is None:
                 raise RuntimeError("Jumping from ram is not supported.")
 
             delta = physical_destination - pc
